@@ -159,21 +159,43 @@ def exhaustive(maxlen, alphabet=None):
 
 # ------------------------------------------------------------------ running
 
+HANG_RC = 124     # harness/c13_link.c: the watchdog of a history fired; its line ends in ` HANG@<phase>`
+NOT_RUN = []      # histories skipped after too many hangs / crashes in their chunk
+HANGS = []        # histories on which the implementation did not terminate (per correspond() call)
+MAX_HANGS = 6     # per chunk: each one costs C13_HANG_CPU seconds
+
+
+def is_hang(line):
+    return ' HANG@' in line or line.startswith('HANG')
+
+
 def run_chunk(exe, lines, env=None):
-    """run all lines; if the process dies, mark the line it died on and carry on after it"""
+    """run all lines; if the process dies, mark the line it died on and carry on after it.  The harness stops a
+    history that does not terminate itself (CPU-time watchdog, exit code 124, line closed with HANG@<phase>): that
+    line is the history's outcome, the run goes on with a fresh process after it.  The subprocess timeout is only
+    the backstop behind the per-history watchdog (a chunk of 20 000 histories takes ~5 s)."""
     out = []
     start = 0
     crashes = 0
+    hangs = 0
     while start < len(lines):
-        rc, o, e = vlib.run_lines(exe, lines[start:], timeout=3000, env=dict(MODE, **(env or {})))
+        rc, o, e = vlib.run_lines(exe, lines[start:], timeout=900, env=dict(MODE, **(env or {})))
         if o and o[-1] == '' and len(o) > len(lines) - start:
             o = o[:-1]
         if rc == 0 and len(o) == len(lines) - start:
             out += o
             break
+        if rc == HANG_RC and o and is_hang(o[-1]) and len(o) <= len(lines) - start:
+            out += o
+            start += len(o)
+            hangs += 1
+            if hangs >= MAX_HANGS:
+                out += ['HANG (not run: %d histories of this chunk did not terminate)' % hangs] * (len(lines) - start)
+                break
+            continue
         k = min(len(o), len(lines) - start - 1)
         out += o[:k]
-        out.append('CRASH rc=%d %s' % (rc, e[-200:].replace('\n', ' ')))
+        out.append('%s rc=%d %s' % ('HANG (chunk timeout)' if '[timeout]' in e else 'CRASH', rc, e[-200:].replace('\n', ' ')))
         start += k + 1
         crashes += 1
         if crashes > 20:
@@ -196,7 +218,9 @@ def run_parallel(exe, lines, jobs=JOBS, env=None):
 
 
 def impl_line(impl, h):
-    rc, o, e = vlib.run_lines(impl, [h], timeout=120, env=MODE)
+    rc, o, e = vlib.run_lines(impl, [h], timeout=120, env=dict(MODE, C13_HANG_CPU='2'))
+    if rc == HANG_RC and len(o) == 1 and is_hang(o[0]):
+        return o[0]
     if rc != 0 or len(o) != 1:
         return 'CRASH rc=%d %s' % (rc, (o[0] if o else '') + e[-200:])
     return o[0]
@@ -280,6 +304,11 @@ def correspond(impl, model, hs):
     rc1, o1, e1 = run_parallel(impl, hs)
     bad = []
     for h, a, b in zip(hs, o1, o2):
+        if '(not run' in a:
+            NOT_RUN.append(h)
+            continue
+        if is_hang(a):
+            HANGS.append(h)
         if not full_eq(a, b):
             bad.append((h, a, b))
         elif '/?' in b:
@@ -359,6 +388,8 @@ def classify(h, a, b):
     ta, tb = a.split(' | '), b.split(' | ')
     for x, y in zip(ta, tb):
         if x != y:
+            if is_hang(x):
+                return 'the implementation does not terminate: "%s" (model "%s")' % (x, y)
             if x.startswith('E:') or y.startswith('E:'):
                 return 'error reporting (model %s, implementation %s)' % (y.split()[0], x.split()[0])
             return 'binding after link (model "%s", implementation "%s")' % (y, x)
@@ -506,8 +537,13 @@ def run(chk):
                                 len(EXH_ALPHABET3), 4 if quick else 5))
     for h in hs[ncorpus + len(ex):][:4]:
         chk.sample(h)
-    del KNOWN_HITS[:]
+    del KNOWN_HITS[:], HANGS[:], NOT_RUN[:]
     bad = correspond(impl, model, hs)
+    chk.cov['watchdog'] = dict(rule='every history runs under a CPU-time limit in the harness (4 s; 2 s while shrinking; a healthy history takes '
+                                    '< 10 ms); a history that does not terminate is closed with HANG@<phase> = a disagreement with the model',
+                               histories_that_did_not_terminate=len(HANGS), histories_not_run_after_too_many_hangs_or_crashes=len(NOT_RUN))
+    if NOT_RUN:
+        chk.notes.append('%d histories were not run: too many hangs/crashes in their chunk' % len(NOT_RUN))
     chk.cov['reent_load_redef_inline'] = dict(histories_where_the_newer_body_was_observed=len(KNOWN_HITS),
                                               rule='call value of an import whose table entry was redefined with a MIR function by a load '
                                                    'performed inside the same link step: exactly the older or the newer value is accepted, '
